@@ -1,25 +1,25 @@
 INIT GInit
 NEXT GNext
 CONSTANTS
-  GenRole = "client"
-  GenActs <- Rz_Acts
-  MaxSteps = 5
+  GenRole = "node"
+  GenActs <- Rv_Acts
+  MaxSteps = 7
   DrainMax = 0
   UseCls = FALSE
   DrawStreams <- R_DrawStreams
   DrawSpaces <- R_DrawSpaces
   NStreams = 1
-  StreamAcct <- Nq_StreamAcct
-  StreamPeer <- Nq_StreamPeer
+  StreamAcct <- R1_StreamAcct
+  StreamPeer <- R1_StreamPeer
   NodePeers = {}
-  Accounts = {"A", "B"}
+  Accounts = {"A"}
   Spaces = {"X"}
   BadSpaces = {}
   NotResp = {}
-  InitMember <- Nq_Member
-  SubFrames = {}
-  UnsubFrames = {}
-  Topics = {}
+  InitMember <- R_Member
+  SubFrames <- Rv_SubFrames
+  UnsubFrames <- R_Unsub
+  Topics <- R_Topics
   MaxPerSpace = 100
   MaxPerStream = 100
   Burst <- NoLimit
@@ -27,10 +27,10 @@ CONSTANTS
   FIX_PruneEmpty = TRUE
   AllowLate = TRUE
   AtomicCheck = FALSE
-  FlipAccounts = {"A", "B"}
-  Self = "B"
-  LocalPats <- Rz_LocalPats
-  Msgs <- Rz_Msgs
+  FlipAccounts = {"A"}
+  Self = "A"
+  LocalPats = {}
+  Msgs = {}
   OwnIds = {}
   RingSize = 1
 INVARIANT Emit
